@@ -10,4 +10,5 @@ INVARIANT BlockShape
 INVARIANT OnceInOrder
 INVARIANT Released
 INVARIANT FaultsSurface
+INVARIANT ShouldStopReads
 CHECK_DEADLOCK TRUE
